@@ -52,7 +52,7 @@ package fox
 //@   modifies *dst, E[Param]
 //@   ensures len(*dst) == len(*src) && *src == old(*src)
 
-//@ func (*cTx).Close props C12 partial
+//@ func (*cTx).Close props C12
 //@   requires c != nil && c.tree != nil
 //@   modifies released[box(c)]
 //@   ensures returned: released[box(c)]
@@ -68,7 +68,7 @@ package fox
 //@ extern (*Request).Clone in net/http pure
 //@   ensures result == reqClone(r) && result != nil
 
-//@ func (*cTx).Clone props C12 partial
+//@ func (*cTx).Clone props C12
 //@   requires c != nil && c.req != nil && c.w != nil && c.params != nil && c.tsrParams != nil
 //@   modifies alloc
 //@   ensures fresh-copy: dyntypeIs(result, *cTx) && fresh(ctxOf(result)) && ctxOf(result) != c
